@@ -10,7 +10,7 @@ let n_of_int (i : int) : n =
 
 let ten = n_of_int 10
 
-let n_of_string (s : string) : n =
+let n_of_string (s : Stdlib.String.t) : n =
   let r = ref N0 in
   String.iter (fun c ->
       if c >= '0' && c <= '9' then r := N.add (N.mul !r ten) (n_of_int (Char.code c - 48))
@@ -20,7 +20,7 @@ let n_of_string (s : string) : n =
 let rec int_of_pos = function XH -> 1 | XO p -> 2 * int_of_pos p | XI p -> 2 * int_of_pos p + 1
 let int_of_n = function N0 -> 0 | Npos p -> int_of_pos p
 
-let string_of_n (x : n) : string =
+let string_of_n (x : n) : Stdlib.String.t =
   (* decimal printing by repeated division (numbers may exceed OCaml's int) *)
   let rec go x acc =
     match x with
@@ -38,6 +38,7 @@ let () =
     | "layout" -> run_layout
     | "mech" -> run_mech
     | "ptr" -> run_ptr
+    | "cmp" -> run_cmp
     | _ -> (prerr_endline ("unknown stream " ^ stream); exit 2) in
   let ic = open_in Sys.argv.(2) in
   (try
